@@ -66,15 +66,17 @@ def run(chk):
     chk.floor('read entry points', len(entries), 30)
     reach = cg.reachable_cs(entries, stop=lambda fq: fq == ce.qualname)   # what creation itself does: L2-L4
     creators = sorted(f for f in cg.callers.get(ce.qualname, ()) if f in reach)
+    lazy = tf.lazy_creators(c)
     for fq in creators:
-        ok = fq == 'core.ElementProxy.__getattr__' or fq == 'core.ElementProxy.__setattr__'
+        ok = fq in lazy
         chk.ob('C11-L1', '%s may create an element during a read' % fq, ok,
-               '' if ok else 'a function reachable from read entry points creates children: navigation would '
-               'materialise elements; call chain: %s' % ' ; '.join(cg.path_to(fq)[-5:]), ix.functions[fq].loc,
+               '' if ok else 'a function reachable from read entry points creates children outside the shadow channel '
+               '(traversal_parent is not the constant True): navigation would materialise elements; call chain: %s' %
+               ' ; '.join(cg.path_to(fq)[-5:]), ix.functions[fq].loc,
                key='C11-L1|creator|%s' % fq)
     nflag = 0
-    for fq in ('core.ElementProxy.__getattr__', 'core.ElementProxy.__setattr__'):
-        fi = ix.func(fq)
+    for fq in creators:
+        fi = ix.functions[fq]
         for s in cg.sites[fq]:
             if s.kind == 'call' and any(t.kind == 'func' and t.func is ce for t in s.targets):
                 nflag += 1
@@ -86,7 +88,7 @@ def run(chk):
                        'lazy creation passes traversal_parent=%s: the new element is attached to the real tree by a '
                        'mere read' % (norm(a) if a is not None else '<default False>'),
                        '%s:%d' % (fi.module.relpath, s.lineno), key='C11-L1|flag|%s' % fq)
-    chk.floor('lazy creation sites in ElementProxy', nflag, 2)
+    chk.floor('lazy creation sites reachable from reads', nflag, 1)
 
     # ---- L2
     g = cfg_of(ce)
@@ -197,7 +199,8 @@ def run(chk):
     for fn in te.funcs:
         for n in own_nodes(fn.node):
             if isinstance(n, ast.Attribute) and n.attr in ('traversal_indexes', 'traversal_list'):
-                table = c10.SHADOW_READERS if n.attr == 'traversal_indexes' else c10.TRAVERSAL_LIST_USERS
+                table = c10.SHADOW_READERS if n.attr == 'traversal_indexes' else \
+                    set(c10.TRAVERSAL_LIST_USERS) | tf.lazy_creators(c)
                 ok = fn.qualname in table
                 chk.ob('C11-L5', '%s reads %s' % (fn.qualname, n.attr), ok,
                        '' if ok else 'the shadow index is consulted outside the lookup/creation code: children that '
